@@ -87,6 +87,7 @@ def CarveNSem (asg : List String) : CExpr → Bool
   | .post _ _ _ => false
   | .call _ _ _ _ => false
   | .stmtexpr _ _ _ => false
+  | .seqexpr _ _ _ _ _ => false
 def CarveNsSem (asg : List String) : List CExpr → List CT → Bool
   | [], _ => true
   | _ :: _, [] => true
@@ -139,6 +140,7 @@ def CarveSSem (env : CEnv) : CStmt → Bool
   | .skip _ => true
   | .exprstmt _ => true
   | .ret _ => true
+  | .vcall _ _ _ _ => true
 def CarveSsSem (env : CEnv) : List CStmt → Bool
   | [] => true
   | s :: ss => CarveSSem env s && CarveSsSem env ss
